@@ -195,11 +195,12 @@ def TLS_PROTOCOLS_DEFAULT : UInt32 := 24
 def lower (c : UInt8) : UInt8 := if 65 ≤ c ∧ c ≤ 90 then c + 32 else c
 /-- `strcasecmp(a, b) == 0` (ASCII) -/
 def eqi (a b : Bytes) : Bool := a.map lower == b.map lower
-def kw (s : String) : Bytes := s.toUTF8.toList
+/-- keywords are written as explicit byte lists (so that the kernel can evaluate them); `kw` documents the text -/
+def kw (_text : String) (bytes : Bytes) : Bytes := bytes
 
 /-- the four obsolete cipher keywords of `tls_config_set_ciphers` -/
 def isCipherKeyword (s : Bytes) : Bool :=
-  eqi s (kw "default") || eqi s (kw "secure") || eqi s (kw "normal") || eqi s (kw "fast")
+  eqi s (kw "default" [100, 101, 102, 97, 117, 108, 116]) || eqi s (kw "secure" [115, 101, 99, 117, 114, 101]) || eqi s (kw "normal" [110, 111, 114, 109, 97, 108]) || eqi s (kw "fast" [102, 97, 115, 116])
 
 /-- split at every byte in `seps` the way successive `strsep` calls do (n separators → n+1 tokens) -/
 def splitSep (seps : Bytes) : Bytes → Bytes → List Bytes
@@ -214,14 +215,14 @@ def skipBlanks : Bytes → Bytes
 /-- the keyword table of `tls_config_parse_protocols` (0 = unknown) -/
 def protoKeyword (p : Bytes) : UInt32 :=
   let proto : UInt32 :=
-    if eqi p (kw "all") then TLS_PROTOCOLS_ALL
-    else if eqi p (kw "default") || eqi p (kw "secure") then TLS_PROTOCOLS_DEFAULT
+    if eqi p (kw "all" [97, 108, 108]) then TLS_PROTOCOLS_ALL
+    else if eqi p (kw "default" [100, 101, 102, 97, 117, 108, 116]) || eqi p (kw "secure" [115, 101, 99, 117, 114, 101]) then TLS_PROTOCOLS_DEFAULT
     else 0
-  if eqi p (kw "tlsv1") then TLS_PROTOCOLS_ALL
-  else if eqi p (kw "tlsv1.0") then TLS_PROTOCOL_TLSv1_0
-  else if eqi p (kw "tlsv1.1") then TLS_PROTOCOL_TLSv1_1
-  else if eqi p (kw "tlsv1.2") then TLS_PROTOCOL_TLSv1_2
-  else if eqi p (kw "tlsv1.3") then TLS_PROTOCOL_TLSv1_3
+  if eqi p (kw "tlsv1" [116, 108, 115, 118, 49]) then TLS_PROTOCOLS_ALL
+  else if eqi p (kw "tlsv1.0" [116, 108, 115, 118, 49, 46, 48]) then TLS_PROTOCOL_TLSv1_0
+  else if eqi p (kw "tlsv1.1" [116, 108, 115, 118, 49, 46, 49]) then TLS_PROTOCOL_TLSv1_1
+  else if eqi p (kw "tlsv1.2" [116, 108, 115, 118, 49, 46, 50]) then TLS_PROTOCOL_TLSv1_2
+  else if eqi p (kw "tlsv1.3" [116, 108, 115, 118, 49, 46, 51]) then TLS_PROTOCOL_TLSv1_3
   else proto
 
 /-- loop body of `tls_config_parse_protocols` over the `strsep` tokens -/
@@ -294,15 +295,15 @@ def Setter.apply (c : Config) : Setter → SetRes
     match s with
     | none => setOk { c with dheparams := 0 }
     | some t =>
-      if eqi t (kw "none") then setOk { c with dheparams := 0 }
-      else if eqi t (kw "auto") then setOk { c with dheparams := -1 }
+      if eqi t (kw "none" [110, 111, 110, 101]) then setOk { c with dheparams := 0 }
+      else if eqi t (kw "auto" [97, 117, 116, 111]) then setOk { c with dheparams := -1 }
       else setFail c
   | .ecdhecurve s nid =>
     match s with
     | none => setOk { c with ecdhecurve := 0 }
     | some t =>
-      if eqi t (kw "none") then setOk { c with ecdhecurve := 0 }
-      else if eqi t (kw "auto") then setOk { c with ecdhecurve := -1 }
+      if eqi t (kw "none" [110, 111, 110, 101]) then setOk { c with ecdhecurve := 0 }
+      else if eqi t (kw "auto" [97, 117, 116, 111]) then setOk { c with ecdhecurve := -1 }
       else if nid == 0 then setFail c
       else setOk { c with ecdhecurve := nid }
   | .ocspFile s =>
@@ -334,7 +335,7 @@ def Setter.apply (c : Config) : Setter → SetRes
 /-- `tls_config_new` (`ca0` = USUAL_TLS_CA_FILE of the configured tree) -/
 def Config.new (ca0 : Bytes) : Config :=
   { caFile := some ca0, caPath := none, caMem := .null 0,
-    ciphers := some (kw "secure"), ciphersServer := 1, dheparams := 0, ecdhecurve := -1,
+    ciphers := some (kw "secure" [115, 101, 99, 117, 114, 101]), ciphersServer := 1, dheparams := 0, ecdhecurve := -1,
     keypair := [⟨none, .null 0, none, .null 0⟩],
     ocspFile := none, ocspMem := .null 0,
     protocols := TLS_PROTOCOLS_DEFAULT,
@@ -376,15 +377,15 @@ def Setter.spec (c : Config) : Setter → List (Field × Value)
     match s with
     | none => [(.dheparams, .int 0)]
     | some t =>
-      if eqi t (kw "none") then [(.dheparams, .int 0)]
-      else if eqi t (kw "auto") then [(.dheparams, .int (-1))]
+      if eqi t (kw "none" [110, 111, 110, 101]) then [(.dheparams, .int 0)]
+      else if eqi t (kw "auto" [97, 117, 116, 111]) then [(.dheparams, .int (-1))]
       else []
   | .ecdhecurve s nid =>
     match s with
     | none => [(.ecdhecurve, .int 0)]
     | some t =>
-      if eqi t (kw "none") then [(.ecdhecurve, .int 0)]
-      else if eqi t (kw "auto") then [(.ecdhecurve, .int (-1))]
+      if eqi t (kw "none" [110, 111, 110, 101]) then [(.ecdhecurve, .int 0)]
+      else if eqi t (kw "auto" [97, 117, 116, 111]) then [(.ecdhecurve, .int (-1))]
       else if nid == 0 then []
       else [(.ecdhecurve, .int nid)]
   | .ocspFile s =>
